@@ -132,3 +132,23 @@ Definition check2 (k : case2) : bool :=
   && Qclose atol rtol (k_deriv k) (derivative e x d)
   && lip_ok (k_lip k) (lipschitz e)
   && beq (k_lin k) (is_linear (k_vs k) e).
+
+(* ---- MoreauEnvelope of L2NormSquared / L1Norm: gradient only (the code has no _call) ---- *)
+Definition prox_l2sq (sigma : Q) (x : list Q) : list Q := vscal (1 / (1 + 2 * sigma))%num x.
+Definition soft (sigma a : Q) : Q := (nsign a * nmax (nabs a - sigma) 0)%num.
+Definition prox_l1 (sigma : Q) (x : list Q) : list Q := map (soft sigma) x.
+Definition Lmoreau_l2sq w (sigma : Q) : Leaf (WS w) :=
+  leaf_moreau (WS w) (fun x : list Q => wdot w x x) (prox_l2sq sigma) sigma.
+Definition Lmoreau_l1 w (sigma : Q) : Leaf (WS w) :=
+  leaf_moreau (WS w) (fun x : list Q => wdot w (map nabs x) (ones w)) (prox_l1 sigma) sigma.
+
+Record case3 := mkCase3 { m_w : list Q; m_l : Leaf (WS m_w); m_x : list Q; m_d : list Q;
+                          m_grad : list Q; m_deriv : Q; m_lip : ilip; m_lin : bool }.
+Definition check3 (k : case3) : bool :=
+  let e : fx (m_w k) := FLeaf (m_l k) in
+  let x : car (WS (m_w k)) := m_x k in
+  let d : car (WS (m_w k)) := m_d k in
+  Qsclose atol rtol (m_grad k) (gradient e x)
+  && Qclose atol rtol (m_deriv k) (derivative e x d)
+  && lip_ok (m_lip k) (lipschitz e)
+  && beq (m_lin k) (is_linear (mkVariants true) e).
